@@ -79,11 +79,35 @@ def config_yaml(hz, profile, batch=False, rgbw="duck_rgb"):
 # case generation
 # ---------------------------------------------------------------------------------------------------------------------
 
+def gen_overlap(r, ops):
+    """two or three keys set, then removed with fade-outs that overlap (the second/third removal lands inside the
+    previous fade-out window, at its start, or exactly at its end), then a later lower-priority fade"""
+    keys = r.sample(KEYS[:5], r.choice([2, 2, 3]))
+    prios = [r.choice([0, 1, 1, 2, 3]) for _ in keys]
+    for k, p in zip(keys, prios):
+        ops.append([r.choice([0, 0, 1]), "color", list(r.choice(COLORS)), r.choice([0, 0, 2]), p, k, 0])
+    ops.append([r.choice([0, 1, 3]), "remove", keys[0], r.choice([2, 4, 4, 8, 12])])
+    window = ops[-1][3]
+    for k in keys[1:]:
+        gap = r.choice([0, 0, 1, 1, 2, max(window - 1, 0), window])
+        fade = r.choice([1, 2, 4, 8, 16])
+        ops.append([gap, "remove", k, fade])
+        window = max(window - gap, fade)
+    k = r.random()
+    if k < 0.5:
+        ops.append([r.choice([0, 1, window, window + 2, window + 6]), "color", list(r.choice(COLORS)), r.choice([0, 4, 8]),
+                    r.choice([0, 0, 1]), r.choice(KEYS[:5]), 0])
+    return window
+
+
 def gen_case(r):
     hz = r.choice([8, 8, 4, 2])
     ops = []
     n = r.randint(4, 14)
     pending = []      # tick offsets (relative to now) at which something interesting ends
+    if r.random() < 0.4:
+        pending.append(gen_overlap(r, ops))
+        n = r.randint(0, 6)
     for _ in range(n):
         k = r.random()
         if pending and k < 0.45:
@@ -335,6 +359,11 @@ class Run:
                 want = ref[k][1]
             if col != want:
                 self.fail.append(("logical-not-top-entry", {"light": name, "t": t, "color": col, "want": want, "ref": ref}))
+            # the stack itself: exactly the live settings, sorted; no fade-out entry left behind
+            have = [[e.key, e.priority, None if e.dest_color is None else tuple(e.dest_color)] for e in light.stack]
+            wstack = [[kk, ref[kk][0], ref[kk][1]] for kk in sorted(ref, key=lambda kk: (ref[kk][0], kk), reverse=True)]
+            if have != wstack:
+                self.fail.append(("stack-not-the-live-settings-at-rest", {"light": name, "t": t, "stack": have, "want": wstack}))
             # hardware = corrected logical colour, no stepping task left
             cc = self.chan_vals(nchan, self.corrected(light, col))
             if kind == "rgbw":
@@ -553,6 +582,11 @@ def model_check(ctx, model, run, case):
                 ans = model.ask("stack")
                 if not ctx.compare(dict(case, **what, at=now, what="stack"), ev["stack"], ans):
                     return
+                if ev["tag"] == "tick":
+                    # everything due has run in the implementation: the model must have no fade-out delay left overdue
+                    ans = model.ask("overdue")
+                    if not ctx.compare(dict(case, **what, at=now, what="fade-out delays overdue"), "t", ans):
+                        return
                 if kind == "soft":
                     ans = model.ask("hw")
                     ok = True
@@ -686,6 +720,14 @@ def one_case(ctx, model, case, batch=False):
 
 
 CORPUS = [
+    # two keys fading out at the same time: the second removal lands inside the first fade-out; then a lower fade
+    {"hz": 8, "profile": False, "tail": 24, "rgbw": "min_rgb",
+     "ops": [[0, "color", [255, 0, 0], 0, 1, "a", 0], [0, "color", [0, 255, 0], 0, 2, "b", 0], [1, "remove", "b", 8],
+             [2, "remove", "a", 4], [12, "color", [0, 0, 255], 8, 0, "c", 0]]},
+    # three keys, removals at the same instant and exactly at the end of a fade-out window
+    {"hz": 4, "profile": False, "tail": 24, "rgbw": "white_only",
+     "ops": [[0, "color", [1, 2, 3], 0, 1, "a", 0], [0, "color", [230, 25, 7], 0, 1, "b", 0], [0, "color", [50, 200, 50], 2, 3, "d", 0],
+             [3, "remove", "d", 4], [0, "remove", "a", 8], [4, "remove", "b", 2], [10, "color", [100, 100, 100], 4, 0, "", 0]]},
     # D17: software fade up, then an immediate colour: the old task must not keep stepping
     {"hz": 8, "profile": False, "tail": 24, "ops": [[0, "color", [255, 255, 255], 16, 0, "a", 0], [4, "color", [0, 0, 0], 0, 0, "a", 0]]},
     # D21: fade over a static entry whose key sorts after the fading key
